@@ -113,7 +113,14 @@ func (e *Explorer) spawn(fr *frame, pos token.Pos, fn value, args []value) {
 // await is called by the running thread for an operation that may block: try
 // attempts the operation without blocking and reports whether it was done.
 func (e *Explorer) await(try func() bool, why string) {
-	for !try() {
+	for {
+		// what try() does on the way to "not yet" (e.g. taking a lock inside a
+		// polled predicate) is not progress of the waiting goroutine
+		before := e.cur.progressed
+		if try() {
+			break
+		}
+		e.cur.progressed = before
 		x := e.cur
 		if x != e.mainT {
 			// park and hand the baton back
@@ -393,5 +400,42 @@ func init() {
 			return call(fr.i, fr, token.NoPos, f, nil)
 		}
 		return iface{}
+	}
+}
+
+// cache.WaitForNamedCacheSync polls until every sync function answers true or
+// the stop channel is closed. Model: the calling goroutine waits cooperatively
+// (other goroutines - e.g. the harness making the informer "synced" - run
+// meanwhile); on the harness thread with nobody able to help it is a deadlock
+// (INCONCLUSIVE), exactly as the real call would hang.
+func init() {
+	externals["k8s.io/client-go/tools/cache.WaitForNamedCacheSync"] = func(fr *frame, args []value) value {
+		e := ex(fr)
+		stopCh, _ := args[1].(chan value)
+		syncs, _ := args[2].([]value)
+		result := false
+		e.await(func() bool {
+			all := true
+			for _, f := range syncs {
+				r := call(fr.i, fr, token.NoPos, f, nil)
+				if b, ok := r.(bool); !ok || !b {
+					all = false
+				}
+			}
+			if all {
+				result = true
+				return true
+			}
+			if stopCh != nil {
+				select {
+				case <-stopCh:
+					result = false
+					return true
+				default:
+				}
+			}
+			return false
+		}, "WaitForNamedCacheSync: the caches never sync and nobody stops the wait")
+		return result
 	}
 }
